@@ -245,8 +245,9 @@ func constPayload(lex string) string {
 
 func newExGen(c *Ctx) *exGen {
 	return &exGen{c: c,
-		consts: []string{"0", "1", "2", "7", "42", "1.5", "0.25", "'ab'", "''", "'x''y'", "TRUE", "FALSE", "2e3"},
-		vars:   []string{"a", "b", "A", "xyz", "_v1", "\"my var\"", "é1", "iſ_x"},
-		funcs:  []string{"Max", "min", "SUM", "f", "Array", "If"},
-		ops:    binOps}
+		consts: []string{"0", "1", "2", "7", "42", "1.5", "0.25", "'ab'", "''", "'x''y'", "TRUE", "FALSE", "2e3",
+			"9007199254740993", "9223372036854775807", "4611686018427387905", "16777217.0", "0.1", "1.", ".5", "1E+2", "3e-2", "123456789.125", "007", "1e38", "33554433.5"},
+		vars:  []string{"a", "b", "A", "xyz", "_v1", "\"my var\"", "é1", "iſ_x"},
+		funcs: []string{"Max", "min", "SUM", "f", "Array", "If"},
+		ops:   binOps}
 }
